@@ -11,12 +11,15 @@ EXPLANATION = (
     "SYN/ACK/RST/FIN, 'acceptability test passed'): (T-SEQCHK) every effect on the connection (writes of state, "
     "RCV.*, SND.UNA/WND/WL*, timeouts, the receive buffer, calls of the &mut self helpers) is reachable only after the "
     "accepting branch of is_seq_ok, except in the one state RFC 9293 exempts (SYN-SENT), and the rejecting branch only "
-    "enqueues an ACK; (T-SYNSENT) in SYN-SENT a segment with neither SYN nor RST reaches no write of state, RCV.* or "
+    "enqueues an ACK; (T-SEQTBL) is_seq_ok itself, reduced to a formula over its arguments, is the four-row decision "
+    "table of RFC 9293 Table 6 on (SEG.LEN = 0, RCV.WND = 0) in the revision the code cites (lower edge RCV.NXT-1): "
+    "first-or-last-byte-in-window for data, nothing acceptable but ACKs on a zero window, bounds compared as linear "
+    "forms modulo 2^32 (the comparator it relies on is decided under C12 Q-PRIM); (T-SYNSENT) in SYN-SENT a segment with neither SYN nor RST reaches no write of state, RCV.* or "
     "the receive buffer; (T-WINDOW) the amount of new data cut for transmission depends through min() on SND.WND minus "
     "the bytes in flight; (P-PANIC) panic sites reachable from the segment entry points whose operands depend on "
     "header fields or text length (see C14 machinery). Decides these structural clauses for all segment sequences; "
     "does not decide numeric window arithmetic beyond the listed panic sites.")
-ASSUMPTIONS = ["is_seq_ok implements RFC 9293 Table 6 (its arithmetic is not checked here)"]
+ASSUMPTIONS = ["mod_bounded is the strict cyclic order (decided by C12 Q-PRIM)"]
 TECHNIQUE = "static analysis: finite-domain abstract interpretation of Tcb::process_segment + dependence and panic-site rules over rustc MIR"
 
 TCB = "elvis_core::protocols::tcp::tcb::Tcb"
@@ -78,6 +81,8 @@ def effect_sites(prog, ps):
 
 def run(ctx):
     run_structural(ctx)
+    from . import seqprims
+    seqprims.check_seq_ok(ctx, "T-SEQTBL")
     run_panics(ctx)
 
 
